@@ -37,7 +37,9 @@ UNKNOWN = ["#foo", "#foo bar baz", "#ident \"v1\"", "#assert machine(x86)", "#un
            "#elifdef X", "#pragma_once", "#include_next <q.h>", "#definex A 1",
            # names that are prefixes, substrings or case variants of directives the analysis knows or deliberately ignores
            "#warn deprecated", "#err x", "#e", "#lin 3", "#in", "#or", "#errors on", "#warnings off", "#defin X 1", "#undefine X", "#els",
-           "#endi", "#if_ 1", "#Line 3", "#ERROR x", "#Pragma once", "#includes <a.h>", "#new", "#war"]
+           "#endi", "#if_ 1", "#Line 3", "#ERROR x", "#Pragma once", "#includes <a.h>", "#new", "#war",
+           # white space other than blank and tab in front of the #
+           "\f#frobnicate", "\v #foo bar", " \f # zap", "\f\v#quux 1"]
 BENIGN = ["#line 100", "#line 7 \"f.c\"", "#warning dead code", "#error never reached"]
 
 
@@ -50,7 +52,7 @@ def required_cells(tier):
             "dangling:same-name-two-dirs", "dangling:same-name-both-forms", "dangling:site-reached-by-2+-commands",
             "unknown-directive:live", "unknown-directive:dead", "benign-directive:dead", "db:missing-file", "db:unknown-compiler",
             "db:unknown-flags", "control:no-warnings", "totals-compared", "memo:failure-then-success-elsewhere",
-            "db:unknown-flags>80-characters", "dangling:below-depth>=64", "db:unknown-implicit-option-from-user-configuration", "header-is-a-compile-command", "log-file-cannot-be-created:refused"]
+            "db:unknown-flags>80-characters", "dangling:below-depth>=64", "db:unknown-implicit-option-from-user-configuration", "header-is-a-compile-command", "log-file-cannot-be-created:refused", "db:entry-repeated-exactly", "unknown-directive:after-form-feed", "db:missing-forced-include"]
 
 
 def is_dangling(name):
@@ -140,7 +142,7 @@ def directive_sites(rendered_orig, rendered_twin, live_markers):
         for io, it in zip(ro.items, rt.items):
             if io["kind"] == "other" and not ro.text_lines[io["lines"][0] - 1].startswith("#pragma once"):
                 text = ro.text_lines[io["lines"][0] - 1]
-                name = re.match(r"#\s*(\w*)", text).group(1)          # directive names are whole, case-sensitive words
+                name = re.match(r"\s*#\s*(\w*)", text).group(1)          # directive names are whole, case-sensitive words
                 cls = "benign" if name in ("line", "warning", "error") else "unknown"
                 out.append((rel, io["lines"][0], text, cls, it.get("marker") in live_markers))
     return out
@@ -212,7 +214,8 @@ def judge(case, exp, warnings, root, db_expect):
     dgot = collections.Counter()
     other = []
     dbgot = collections.Counter()
-    named = {"unknown-flags": collections.Counter(), "unknown-compiler": collections.Counter(), "missing-file": collections.Counter()}
+    named = {"unknown-flags": collections.Counter(), "unknown-compiler": collections.Counter(), "missing-file": collections.Counter(),
+             "missing-forced-include": collections.Counter()}
     for w in warnings:
         first = w.split("\n")[0]
         m = INC_RE.match(first)
@@ -232,6 +235,10 @@ def judge(case, exp, warnings, root, db_expect):
         elif re.match(r"Compiler '.*' not recognized", first):
             dbgot["unknown-compiler"] += 1
             named["unknown-compiler"][re.match(r"Compiler '(.*)' not recognized", first).group(1)] += 1
+        elif re.search(r"-include", first) and "not found" in first:
+            dbgot["missing-forced-include"] += 1
+            mm = re.search(r"'([^']*)'", first)
+            named["missing-forced-include"][os.path.basename(mm.group(1)) if mm else first] += 1
         elif first.startswith("Unrecognized arguments"):
             dbgot["unknown-flags"] += 1
             mm = re.match(r"Unrecognized arguments: '(.*)'$", first)
@@ -253,7 +260,7 @@ def judge(case, exp, warnings, root, db_expect):
     for site, n in dgot.items():
         if site not in known_sites:
             problems.append({"kind": "directive warning for a site that does not exist", "site": list(site)})
-    for k in ("missing-file", "unknown-compiler", "unknown-flags"):
+    for k in ("missing-file", "unknown-compiler", "unknown-flags", "missing-forced-include"):
         if dbgot.get(k, 0) != db_expect.get(k, 0):
             problems.append({"kind": "database-level warnings", "category": k, "expected": db_expect.get(k, 0), "observed": dbgot.get(k, 0)})
     # each database-level warning names what could not be honoured: every unknown flag, the compiler, the file
@@ -276,16 +283,35 @@ def write_databases(case, base, rng, extras=True, implicit_unknown=False):
     root, out = forest.paths(base)
     by = {}
     exp = collections.Counter()
-    exp.names = {"unknown-flags": collections.Counter(), "unknown-compiler": collections.Counter(), "missing-file": collections.Counter()}
+    exp.names = {"unknown-flags": collections.Counter(), "unknown-compiler": collections.Counter(), "missing-file": collections.Counter(),
+                 "missing-forced-include": collections.Counter()}
     long_flags = ["--build-system-flag-%02d=value" % k for k in range(9)]      # about 250 characters when joined
+    made = []
     for tu in case["tus"]:
+        if "dup_of" in tu:
+            # the very same entry once more (build systems emit a command once per target that needs it): one more
+            # command, one more set of warnings
+            plat0, entry0, kinds0 = made[tu["dup_of"]]
+            by.setdefault(plat0, []).append(dict(entry0))
+            for kind, name in kinds0:
+                exp[kind] += 1
+                exp.names[kind][name] += 1
+            made.append((plat0, entry0, kinds0))
+            continue
+        kinds = []
         path, defines, search, incs = forest.tu_args(tu, root, out)
         comp = "gcc"
+        fl = None
+        forced_missing = None
         argv = ["-D" + d for d in defines]
         for k, d in search:
             argv += ["-I", d]
         for f in incs:
             argv += ["-include", f]
+        if extras and rng.random() < 0.15:
+            # a forced include that names no existing file is input that cannot be honoured, like a dangling #include
+            forced_missing = "forced_nothere_%d.h" % len(made)
+            argv += ["-include", forced_missing]
         if extras:
             x = rng.random()
             if x < 0.2:
@@ -317,6 +343,16 @@ def write_databases(case, base, rng, extras=True, implicit_unknown=False):
             exp.names["unknown-flags"][mine + ("-fmystery-option=7",)] += 1
         argv = [comp] + argv + ["-c", path]
         by.setdefault(tu["platform"], []).append({"file": path, "directory": os.path.dirname(path), "arguments": argv})
+        if forced_missing:
+            kinds.append(("missing-forced-include", forced_missing))
+            exp["missing-forced-include"] += 1
+            exp.names["missing-forced-include"][forced_missing] += 1
+        if comp != "gcc":
+            kinds.append(("unknown-compiler", os.path.basename(comp)))
+        final_flags = (tuple(fl or ()) + ("-fmystery-option=7",)) if (implicit_unknown and comp == "gcc") else (tuple(fl) if fl else None)
+        if final_flags:
+            kinds.append(("unknown-flags", final_flags))
+        made.append((tu["platform"], by[tu["platform"]][-1], kinds))
         if extras and rng.random() < 0.25:
             by[tu["platform"]].append({"file": os.path.join(os.path.dirname(path), "generated_%d.c" % len(by[tu["platform"]])),
                                        "directory": os.path.dirname(path), "arguments": ["gcc", "-c", "generated.c"]})
@@ -350,6 +386,10 @@ def check_case(ctx, case, base, cls, via_cli, rng):
     cells = set(exp["cells"])
     if any(tu["file"].endswith(".h") for tu in case["tus"]):
         cells.add("header-is-a-compile-command")
+    if any("dup_of" in tu for tu in case["tus"]):
+        cells.add("db:entry-repeated-exactly")
+    if any(s_[2].lstrip(" ")[:1] in "\f\v" and s_[3] == "unknown" and s_[4] for s_ in exp["dsites"]):
+        cells.add("unknown-directive:after-form-feed")
     # one command-line case in 8 runs where the log file cannot be created (cbi.log is a directory): the tool may refuse to
     # run, but if it runs, its totals are judged like any other run's
     blocked_log = via_cli and rng.random() < 0.12
@@ -465,6 +505,9 @@ def run_shard(ctx):
             tu["search"] = [["I", d] for _, d in tu["search"]]
         if not control:
             inject_directives(rng, case)
+        if i % 5 == 3:
+            # the first command appears twice, exactly repeated
+            case["tus"].append(dict(case["tus"][0], dup_of=0))
         if i % 4 == 1:
             # a header that is also a compile command of its own (precompiled header): everything it cannot honour is
             # reported for that command too
